@@ -28,6 +28,22 @@ CLAIMS = {
          "Exploration + bounded-exhaustive: generated logs/containers/windows run at 5 block sizes from a boundary-rich pool incl. 64 and 0xFFFFFF; in-process LineReader at block sizes 1..len+2 on generated contents, and every content over {\\n,a,1} up to length 7 at every block size 1..len+1 (exhaustive).",
          "Trusts: the 65536 run as metamorphic reference (additionally compared with the generator model); files outside the block-zero heuristic excluded (F6).",
          "DESIGN.md section 4 C12"),
+ "C04": ("property-based testing (proptest): generated (notation template, instant, zone spelling, fraction digits, case variant, -t) tuples, round-trip oracle through `s4 -u -d %s.%9f`",
+         "Exploration: thousands of files of 20..60 timestamps each over 32 notation templates covering every family the statement names; the instant s4 attributes to every line must equal the generated instant to the written nanosecond, and every line must be its own message. Days stratified over 1970-01-02..2099-12-30, offsets in 15-minute steps, every upper-case zone abbreviation of the project's table.",
+         "Trusts: harness civil-time arithmetic (independent of chrono); frozen copy of the zone abbreviation table; notations outside the templates are not covered.",
+         "DESIGN.md section 4 C04"),
+ "C13": ("property-based testing (proptest): generated option tuples x sources x file names, constructive expected-output oracle",
+         "Exploration: generated combinations of -n/-p/-w, -u/-l/-z, -d FORMAT, --prepend-separator, --separator (all escapes), --color over 1..3 sources of all kinds with generated (incl. non-ASCII and wide) file names; stdout (minus SGR sequences for --color always) must equal the decoration constructed from the undecorated messages.",
+         "Trusts: harness strftime subset; instants of non-text messages from a single-source run; TZ=UTC.",
+         "DESIGN.md section 4 C13"),
+ "C16": ("property-based testing (proptest) + exhaustive enumeration of the finite core: independent reference classifier and metamorphic relations over generated file names, in-process",
+         "Exploration + bounded-exhaustive: ~630k grammar names enumerated exhaustively (type word x case x stem/extension x rotation comps x compression x junk) plus 20k..400k random grammar and arbitrary (non-UTF-8, dots, 5 KB) names per run; classification must equal the reference, be invariant under case/rotation/junk decoration, and terminate without panic for every name (a stack overflow of the harness process is attributed to the in-flight case by ./check).",
+         "Trusts: the reference classifier transcribed from the property statement; bare `evtx` and double compression suffixes are outside the grammar.",
+         "DESIGN.md section 4 C16"),
+ "C19": ("property-based testing (proptest): summary parsed and compared with counts derived from stdout and from the reference merge",
+         "Exploration: generated source sets x decoration tuples x windows, each run with and without --summary; stdout must be unchanged, `Printed bytes/lines/messages`, the per-file sums, first/last printed datetimes and resolved filter bounds must equal values computed independently from stdout and the model.",
+         "Trusts: summary text layout (labels) as of this tree; colour sequences are not counted in Printed bytes (weaker reading).",
+         "DESIGN.md section 4 C19"),
 }
 PENDING_REASON = "check not built yet in this session (planned in DESIGN.md section 4); not claimed until its check exists and is silent on the unchanged tree"
 
